@@ -226,6 +226,9 @@ func RuleY1Y2(c *Ctx) {
 		zs := callsTo(s, gfr, "Element", "IsZero")
 		ok := len(inv) == 1 && len(pw) == 1 && len(zs) == 1
 		var why []string
+		if !ok {
+			why = append(why, fmt.Sprintf("SqrtPrecomp no longer has one zero test of its input (%d), one power computation (%d) and one dyadic reconstruction (%d): zero must be answered with zero before the reconstruction, which cannot find 0 in its table", len(zs), len(pw), len(inv)))
+		}
 		if ok {
 			// works on a private copy of x
 			cp, isAl := pw[0].Call.Args[0].(*ssa.Alloc)
@@ -911,6 +914,21 @@ func RuleR1(c *Ctx) {
 					if _, isPanic := s.Instrs[len(s.Instrs)-1].(*ssa.Panic); isPanic {
 						continue // aborting is not skipping
 					}
+					if ret, isRet := s.Instrs[len(s.Instrs)-1].(*ssa.Return); isRet && !l.Blocks[s] && len(s.Instrs) == 1 {
+						failure := len(ret.Results) > 0
+						for _, rv := range ret.Results {
+							if b, isB := core.ConstBool(rv); isB && !b {
+								continue
+							}
+							if core.IsNilConst(rv) {
+								continue
+							}
+							failure = false
+						}
+						if failure {
+							continue // giving up with a failure result is not skipping either
+						}
+					}
 					if !l.Blocks[s] && b != l.Header {
 						pos := b.Instrs[len(b.Instrs)-1].Pos()
 						for k := len(b.Instrs) - 1; k >= 0 && !pos.IsValid(); k-- {
@@ -1051,4 +1069,135 @@ func curveTermOps(xPath string) symOps[string] {
 			return "", false
 		},
 	}
+}
+
+// ---------------------------------------------------------------------------
+// T2 — no decision on the low 64 bits of a big integer
+
+// RuleT2: every (*big.Int).Uint64/Int64 of the module is dominated by a full-width test of the same integer (or of the
+// field element it was taken from).
+func RuleT2(c *Ctx) {
+	c.Rule("T2", "no truncated decisions: wherever the module takes the low 64 bits of a big.Int (Uint64/Int64), a full-width test dominates it — IsUint64/IsInt64/BitLen/Cmp/CmpAbs/Sign on that integer, or fr.Element.Cmp on the element it was converted from — so that a value that only agrees in its low limb cannot take the same branch or index")
+	n := 0
+	for _, top := range c.P.TopFuncs() {
+		if inHelperPkg(top) {
+			continue
+		}
+		for _, fn := range core.Family(top) {
+			for _, ci := range core.CallsIn(fn) {
+				call, ok := ci.(*ssa.Call)
+				if !ok {
+					continue
+				}
+				f := core.Callee(call.Common())
+				if !(core.IsMethod(f, "math/big", "Int", "Uint64") || core.IsMethod(f, "math/big", "Int", "Int64")) {
+					continue
+				}
+				n++
+				c.Saw(core.FnName(fn))
+				key := fmt.Sprintf("%s:%s@%s", core.FnName(fn), f.Name(), c.relInFn(fn, call.Pos()))
+				x := call.Call.Args[0]
+				guarded := ""
+				for _, cj := range core.CallsIn(fn) {
+					g, ok := cj.(*ssa.Call)
+					if !ok || g == call || len(g.Call.Args) == 0 {
+						continue
+					}
+					gf := core.Callee(g.Common())
+					if gf == nil || !(g.Block() == call.Block() && core.Precedes(fn, g, call) || g.Block().Dominates(call.Block())) {
+						continue
+					}
+					switch {
+					case gf.Pkg != nil && gf.Pkg.Pkg.Path() == "math/big" && g.Call.Args[0] == x:
+						switch gf.Name() {
+						case "IsUint64", "IsInt64", "BitLen", "Cmp", "CmpAbs", "Sign":
+							guarded = "(*big.Int)." + gf.Name() + " on the same integer"
+						}
+					case core.IsMethod(gf, "bandersnatch/fr", "Element", "Cmp"):
+						// the integer is the regular form of a field element that was compared full-width before
+						for _, ck := range core.CallsIn(fn) {
+							conv, ok := ck.(*ssa.Call)
+							if ok && core.IsMethod(core.Callee(conv.Common()), "bandersnatch/fr", "Element", "ToBigIntRegular") && len(conv.Call.Args) == 2 && (conv.Call.Args[1] == x || ssa.Value(conv) == x) {
+								guarded = "fr.Element.Cmp on the element it was converted from"
+							}
+						}
+					}
+				}
+				if guarded != "" {
+					c.OK("T2", key, call.Pos(), "dominated by "+guarded)
+				} else {
+					c.Bad("T2", key, call.Pos(), core.FnName(fn)+" takes the low 64 bits of a big integer without a full-width test before it: every value with the same low limb (e.g. multiples of 2^64) is treated alike")
+				}
+			}
+		}
+	}
+	c.FloorN("T2", 1, n, "low-64-bit extractions")
+}
+
+// ---------------------------------------------------------------------------
+// Q3 — tables that go through a batch inversion are completely filled
+
+// RuleQ3: in the multiproof verifier, a fixed-size table handed to BatchInvert is written at every position by an
+// unconditional pass (BatchInvert leaves zero entries zero, so a skipped position silently becomes a zero factor).
+func RuleQ3(c *Ctx) {
+	c.Rule("Q3", "inverted tables are complete: in CheckMultiProof every fixed-size table handed to fr.BatchInvert is written by a loop over its whole index range whose write is executed on every iteration (BatchInvert maps an unwritten 0 to 0, and the table is read at data-dependent positions zs[i])")
+	fn := c.P.Fn("", "", "CheckMultiProof")
+	if fn == nil {
+		c.Unresolved("Q3", "CheckMultiProof")
+		return
+	}
+	c.Saw(core.FnName(fn))
+	n := 0
+	cls := countedLoops(fn)
+	for _, call := range callsTo(fn, "bandersnatch/fr", "", "BatchInvert") {
+		tbl := call.Call.Args[0]
+		ln, okLen := constLen(tbl, 0)
+		if !okLen {
+			continue // grown by append: the compaction rules (M6) decide it
+		}
+		n++
+		key := fmt.Sprintf("CheckMultiProof:BatchInvert@%s", c.relInFn(fn, call.Pos()))
+		covered := false
+		var why []string
+		core.AllInstrs(fn, func(i ssa.Instruction) {
+			var ia *ssa.IndexAddr
+			switch x := i.(type) {
+			case *ssa.Store:
+				ia, _ = x.Addr.(*ssa.IndexAddr)
+			case *ssa.Call:
+				if len(x.Call.Args) > 0 {
+					if f := core.Callee(x.Common()); f != nil && f.Signature.Recv() != nil && !gnarkObservers[f.Name()] {
+						ia, _ = x.Call.Args[0].(*ssa.IndexAddr)
+					}
+				}
+			}
+			if ia == nil || ia.X != tbl || !core.CanReach(fn, i, call) || core.CanReach(fn, call, i) {
+				return
+			}
+			cl := loopOf(cls, i.Block())
+			if cl == nil || core.StripConv(ia.Index) != cl.phi {
+				why = append(why, "a write at "+c.P.Pos(i.Pos())+" is not indexed by a loop variable")
+				return
+			}
+			trips, okT := cl.tripCount()
+			z, isZ := core.ConstInt(cl.init)
+			if !okT || !isZ || z != 0 || trips != ln || cl.step != 1 {
+				why = append(why, "the filling loop does not run over the whole table")
+				return
+			}
+			every := true
+			for _, p := range cl.loop.Header.Preds {
+				if cl.loop.Blocks[p] && !(i.Block() == p || i.Block().Dominates(p)) {
+					every = false
+				}
+			}
+			if !every {
+				why = append(why, "the write at "+c.P.Pos(i.Pos())+" is skipped on some iterations: those entries stay 0 through the inversion")
+				return
+			}
+			covered = true
+		})
+		c.Check(covered && len(why) == 0, "Q3", key, call.Pos(), "a table of "+fmt.Sprint(ln)+" entries is inverted without having been completely filled: "+strings.Join(uniqStrings(why), "; "), fmt.Sprintf("all %d entries written on every iteration before the inversion", ln))
+	}
+	c.FloorN("Q3", 1, n, "fixed-size tables passed to BatchInvert")
 }
